@@ -12,6 +12,8 @@ import (
 	"sort"
 	"strings"
 	"testing"
+
+	"github.com/wmnsk/go-pfcp/ie"
 )
 
 type c06Op struct {
@@ -204,6 +206,11 @@ func TestVerifC06(t *testing.T) {
 		"distinct_nontrivial = distinct pool states"
 	res.Assumptions = []string{"refPool is a set: in range, never network/broadcast, injective, sticky, release frees exactly that address, refusal iff all held", "prefixes shorter than /12 are skipped (the pool materialises every address)"}
 	if rc := vReplayCase(); rc != nil {
+		var sc seqCase
+		if json.Unmarshal(rc, &sc); len(sc.History) > 0 {
+			c06Handlers(res, &sc)
+			return
+		}
 		var cs c06Case
 		json.Unmarshal(rc, &cs)
 		p, err := NewIPPool(cs.CIDR)
@@ -287,6 +294,11 @@ func TestVerifC06(t *testing.T) {
 	if vMine(6) {
 		c06EndToEnd(res)
 	}
+	// handler level: every history of establishments, modifications (accepted and refused ones that ask for the address
+	// again) and endings on a pool of two addresses
+	if vMine(7) {
+		c06Handlers(res, nil)
+	}
 	res.sample(c06Case{CIDR: "10.250.0.0/30", Ops: []c06Op{{"alloc", 1}, {"alloc", 2}, {"alloc", 3}, {"release", 1}, {"alloc", 3}, {"alloc", 1}}})
 }
 
@@ -337,5 +349,145 @@ func c06EndToEnd(res *vResult) {
 				delete(held, x.Idx)
 			}
 		}
+	}
+}
+
+// c06Handlers: SEQ BFS through the real handlers on a /30 pool (two addresses). After every step the pool must hold exactly
+// the addresses the live sessions were given (sticky, exclusive, in range, released exactly at the ending), and an
+// establishment that is otherwise valid is refused iff both addresses are held.
+func c06Handlers(res *vResult, replay *seqCase) {
+	cfg := vCfg{NConns: 1, UEIPAlloc: true, Pool: "10.250.0.0/30"}
+	ref := newRefPool(cfg.Pool)
+	depth := 7
+	if vEnv.Thorough {
+		depth = 9
+	}
+	alphabet := func(s *sessSys) []sessReq {
+		var out []sessReq
+		add := func(label string, r sessReq) {
+			r.Label = label
+			out = append(out, r)
+		}
+		if s.m.Assoc[0] == "" || s.m.Gone[0] {
+			add("assoc", sessReq{sReq: sReq{Kind: kAssoc, Conn: 0}})
+			return out
+		}
+		live := s.m.live(0)
+		if len(live) < 3 {
+			p, f, q := rsChoose()
+			seid := uint64(10 + len(s.m.Sess))
+			add("est-alloc", sessReq{sReq: sReq{Kind: kEst, Conn: 0, CPSEID: seid, CreatePDR: p, CreateFAR: f, CreateQER: q}})
+			p2 := append(append([]sPDR{}, p...), sPDR{ID: 9, Prec: 10, Src: ie.SrcInterfaceCore, UEIP: "16.9.9.9", BadSDF: true, FAR: 2})
+			add("est-alloc-rejected-later-pdr", sessReq{sReq: sReq{Kind: kEst, Conn: 0, CPSEID: seid, CreatePDR: p2, CreateFAR: f, CreateQER: q}})
+		}
+		for _, x := range live {
+			add("del", sessReq{sReq: sReq{Kind: kDel, Conn: 0}, Sess: x.Idx})
+			p2 := x.pdr(2)
+			if p2 == nil {
+				continue
+			}
+			up := p2.sPDR
+			add("mod-update-alloc-pdr", sessReq{sReq: sReq{Kind: kMod, Conn: 0, UpdatePDR: []sPDR{up}}, Sess: x.Idx})
+			up.BadSDF = true
+			add("mod-rejected-update-alloc-pdr", sessReq{sReq: sReq{Kind: kMod, Conn: 0, UpdatePDR: []sPDR{up}}, Sess: x.Idx})
+			add("mod-rejected-create-alloc-pdr", sessReq{sReq: sReq{Kind: kMod, Conn: 0, CreatePDR: []sPDR{{ID: 9, Prec: 10, Src: ie.SrcInterfaceCore, UEAlloc: true, BadSDF: true, FAR: 2}}}, Sess: x.Idx})
+			if x.pdr(5) == nil {
+				add("mod-create-alloc-pdr", sessReq{sReq: sReq{Kind: kMod, Conn: 0, CreatePDR: []sPDR{{ID: 5, Prec: 60, Src: ie.SrcInterfaceCore, UEAlloc: true, SDF: "permit out udp from 10.7.0.0/16 5000 to assigned", FAR: 2}}}, Sess: x.Idx})
+			}
+			add("mod-rejected-remove-unknown", sessReq{sReq: sReq{Kind: kMod, Conn: 0, RemovePDR: []uint16{99}}, Sess: x.Idx})
+		}
+		if len(live) > 0 {
+			add("release", sessReq{sReq: sReq{Kind: kRel, Conn: 0}})
+		}
+		return out
+	}
+	pool := func(s *sessSys) (inv map[uint64]string, free []string) {
+		p := s.in.u.ippool
+		p.mu.Lock()
+		defer p.mu.Unlock()
+		inv = map[uint64]string{}
+		for k, v := range p.inventory {
+			inv[k] = v.String()
+		}
+		for _, v := range p.freePool {
+			free = append(free, v.String())
+		}
+		return
+	}
+	oracle := func(c *stepCtx) {
+		s := c.sys
+		bad := func(class, f string, a ...any) {
+			s.violation("c06:handlers-"+class+":after="+c.req.Label, fmt.Sprintf(f, a...))
+		}
+		// what the live sessions were given (model: the addresses read from Created PDR)
+		given := map[uint64]string{}
+		for _, x := range s.m.live(-1) {
+			for _, p := range x.PDRs {
+				if p.AllocUE && p.UE != 0 {
+					given[x.UPSEID] = int2ip(p.UE).String()
+				}
+			}
+		}
+		if c.req.Kind == kEst && c.accepted && c.newSess != nil {
+			ue := ""
+			for _, cr := range c.resp.Created {
+				if cr.HasU {
+					ue = cr.UEIP
+				}
+			}
+			if !ref.usable[ue] {
+				bad("out-of-range", "Created PDR carries UE address %q, not a usable address of %s", ue, cfg.Pool)
+			}
+			for seid, h := range given {
+				if h == ue && seid != c.newSess.UPSEID {
+					bad("not-exclusive", "UE address %s handed to a new session while session %x holds it", ue, seid)
+				}
+			}
+		}
+		if c.req.Label == "est-alloc" && !c.accepted && len(given) < len(ref.usable) {
+			bad("refused", "establishment refused with %d of %d addresses held", len(given), len(ref.usable))
+		}
+		inv, free := pool(s)
+		if len(inv) != len(given) {
+			bad("inventory", "pool holds %v, live sessions were given %v", inv, given)
+		} else {
+			for k, v := range given {
+				if inv[k] != v {
+					bad("not-sticky", "pool holds %v, live sessions were given %v", inv, given)
+					break
+				}
+			}
+		}
+		seen := map[string]bool{}
+		for _, v := range inv {
+			seen[v] = true
+		}
+		for _, v := range free {
+			if seen[v] || !ref.usable[v] {
+				bad("free-list", "free list %v with inventory %v", free, inv)
+			}
+			seen[v] = true
+		}
+		if len(seen) != len(ref.usable) {
+			bad("lost-address", "free list %v and inventory %v do not add up to the pool", free, inv)
+		}
+	}
+	ex := &seqExplorer{res: res, scenario: cfg, depth: depth}
+	ex.mk = func() seqSys {
+		s := newSessSys(ex, res, cfg, alphabet, oracle)
+		s.poisonOnViolation = true
+		// (the order of the free list is not part of the key: Association Release ends sessions in map order)
+		return s
+	}
+	if replay != nil {
+		ex.replay(*replay)
+		return
+	}
+	ex.explore(nil)
+	res.Distinct += ex.stats.States
+	res.addExtra("handler_states", ex.stats.States)
+	res.addExtra("handler_transitions", ex.stats.Edges)
+	if ex.stats.Truncated {
+		res.Extra["handler_bfs_truncated"] = true
 	}
 }
